@@ -353,6 +353,7 @@ where
                 let merged = &merged;
                 let failure = &failure;
                 sc.spawn(move || {
+                    BUSY[t % MAX_WORKERS].store(true, Ordering::Relaxed);
                     let mut config = Config::default();
                     config.cases = share.min(u32::MAX as u64) as u32;
                     config.failure_persistence = None;
@@ -372,13 +373,40 @@ where
                     let stats = RefCell::new(Stats::default());
                     let failed = RefCell::new(false);
                     let last_fail: RefCell<Option<Fail>> = RefCell::new(None);
+                    let helper: RefCell<Option<Helper<C>>> = RefCell::new(None);
                     let res = runner.run(&strategy, |case| {
+                        beat(t);
                         let shrinking = *failed.borrow();
+                        if shrinking && HUNG.load(Ordering::SeqCst) {
+                            // keep the case that did not return as it is
+                            return Ok(());
+                        }
                         if !shrinking && stop.load(Ordering::Relaxed) {
                             return Ok(());
                         }
                         let mut probe = Probe::default();
-                        let r = guarded_check(|| (self.check)(&case, &mut probe));
+                        let r = if deadline_applies(self.name) {
+                            let mut h = helper.borrow_mut();
+                            if h.is_none() {
+                                *h = Helper::spawn(self.check);
+                            }
+                            match h.as_ref() {
+                                Some(hh) => match hh.run(case.clone()) {
+                                    Some((r, p)) => {
+                                        probe = p;
+                                        r
+                                    }
+                                    None => {
+                                        // the helper is stuck inside the code under test: abandon it
+                                        *h = None;
+                                        Err(does_not_return())
+                                    }
+                                },
+                                None => guarded_check(|| (self.check)(&case, &mut probe)),
+                            }
+                        } else {
+                            guarded_check(|| (self.check)(&case, &mut probe))
+                        };
                         match r {
                             Ok(()) => {
                                 if !shrinking {
@@ -416,7 +444,14 @@ where
                         Err(TestError::Fail(_, case)) => {
                             // re-run the shrunk case to get its own message/key
                             let mut probe = Probe::default();
-                            let f = match guarded_check(|| (self.check)(&case, &mut probe)) {
+                            let rr = if HUNG.load(Ordering::SeqCst) {
+                                Err(last_fail.borrow().clone().unwrap_or_else(does_not_return))
+                            } else if deadline_applies(self.name) {
+                                deadline_check(self.check, &case, &mut probe)
+                            } else {
+                                guarded_check(|| (self.check)(&case, &mut probe))
+                            };
+                            let f = match rr {
                                 Err(f) => f,
                                 Ok(()) => last_fail
                                     .borrow()
@@ -438,6 +473,7 @@ where
                         }
                     }
                     merged.lock().unwrap().merge(stats.into_inner());
+                    BUSY[t % MAX_WORKERS].store(false, Ordering::Relaxed);
                 });
             }
         });
@@ -457,7 +493,92 @@ where
     fn replay(&self, case: Value) -> Result<Check, String> {
         let case: C = serde_json::from_value(case).map_err(|e| format!("cannot decode case: {e}"))?;
         let mut probe = Probe::default();
+        if deadline_applies(self.name) {
+            return Ok(deadline_check(self.check, &case, &mut probe));
+        }
         Ok(guarded_check(|| (self.check)(&case, &mut probe)))
+    }
+}
+
+// ---------------------------------------------------------------------------
+// Calls that do not return. For the sub-checks listed here a case takes micro- to milliseconds and
+// the functions under test are pure computations on small inputs; such a case is executed on a
+// helper thread, and if it has not come back after DEADLINE_S seconds (four or more orders of
+// magnitude beyond its normal cost) the check reports that the call does not return for this input
+// (the helper thread is abandoned). Everything else keeps the stall watchdog (exit status 2).
+
+const DEADLINE_SUBS: &[&str] = &[
+    "graphs", "regression", "wide-index", "conversion", "conversion-large", "conversion-wide", "encoder", "encoder-large", "model", "degenerate-shapes", "roundtrip",
+    "roundtrip-large", "roundtrip-fixed", "totality", "totality-fixed", "interleaver-shapes", "interleaver-random", "puncturer", "peg",
+];
+const DEADLINE_S: u64 = 60;
+
+pub fn deadline_applies(sub: &str) -> bool {
+    DEADLINE_SUBS.contains(&sub)
+}
+
+/// a long-lived helper thread executing the cases of one worker (spawning a thread per case costs
+/// ~150 us, a hand-over to a waiting helper a few microseconds)
+pub struct Helper<C> {
+    tx: std::sync::mpsc::Sender<C>,
+    rx: std::sync::mpsc::Receiver<(Check, Probe)>,
+}
+
+impl<C: Send + 'static> Helper<C> {
+    pub fn spawn(check: fn(&C, &mut Probe) -> Check) -> Option<Helper<C>> {
+        let (tx, rx_case) = std::sync::mpsc::channel::<C>();
+        let (tx_res, rx) = std::sync::mpsc::channel();
+        std::thread::Builder::new()
+            .stack_size(8 << 20)
+            .spawn(move || {
+                while let Ok(c) = rx_case.recv() {
+                    let mut p = Probe::default();
+                    let r = guarded_check(|| check(&c, &mut p));
+                    if tx_res.send((r, p)).is_err() {
+                        break;
+                    }
+                }
+            })
+            .ok()?;
+        Some(Helper { tx, rx })
+    }
+
+    /// None = the helper did not answer within the deadline (it is to be abandoned)
+    pub fn run(&self, case: C) -> Option<(Check, Probe)> {
+        if self.tx.send(case).is_err() {
+            return None;
+        }
+        self.rx.recv_timeout(std::time::Duration::from_secs(DEADLINE_S)).ok()
+    }
+}
+
+/// set once a call did not return: abandoned helper threads keep a core busy each, so the run is
+/// cut short from then on (no shrinking of that case, no further sub-checks)
+pub static HUNG: AtomicBool = AtomicBool::new(false);
+
+pub fn does_not_return() -> Fail {
+    HUNG.store(true, Ordering::SeqCst);
+    Fail::new("does-not-return", format!("the code under test has not returned after {DEADLINE_S} s for this input (such a case normally takes milliseconds at most)"))
+}
+
+pub fn deadline_check<C: Clone + Send + 'static>(check: fn(&C, &mut Probe) -> Check, case: &C, probe: &mut Probe) -> Check {
+    let (tx, rx) = std::sync::mpsc::channel();
+    let c = case.clone();
+    let spawned = std::thread::Builder::new().stack_size(8 << 20).spawn(move || {
+        let mut p = Probe::default();
+        let r = guarded_check(|| check(&c, &mut p));
+        let _ = tx.send((r, p));
+    });
+    if spawned.is_err() {
+        // no helper thread available: run in place
+        return guarded_check(|| check(case, probe));
+    }
+    match rx.recv_timeout(std::time::Duration::from_secs(DEADLINE_S)) {
+        Ok((r, p)) => {
+            *probe = p;
+            r
+        }
+        Err(_) => Err(does_not_return()),
     }
 }
 
@@ -487,17 +608,21 @@ where
         let merged = Mutex::new(Stats::default());
         let failure: Mutex<Option<(usize, Failure)>> = Mutex::new(None);
         std::thread::scope(|sc| {
-            for _ in 0..THREADS.min(cases.len().max(1)) {
-                sc.spawn(|| {
+            for w in 0..THREADS.min(cases.len().max(1)) {
+                let (next, merged, failure, cases) = (&next, &merged, &failure, &cases);
+                sc.spawn(move || {
+                    BUSY[w % MAX_WORKERS].store(true, Ordering::Relaxed);
                     let mut stats = Stats::default();
                     loop {
                         let i = next.fetch_add(1, Ordering::Relaxed);
                         if i >= cases.len() {
                             break;
                         }
+                        beat(w);
                         let case = &cases[i];
                         let mut probe = Probe::default();
-                        match guarded_check(|| (self.check)(case, &mut probe)) {
+                        let rr = if deadline_applies(self.name) { deadline_check(self.check, case, &mut probe) } else { guarded_check(|| (self.check)(case, &mut probe)) };
+                        match rr {
                             Ok(()) => stats.record(case, digest_of(case), probe),
                             Err(f) => {
                                 if f.key == INCONCLUSIVE {
@@ -525,6 +650,7 @@ where
                         }
                     }
                     merged.lock().unwrap().merge(stats);
+                    BUSY[w % MAX_WORKERS].store(false, Ordering::Relaxed);
                 });
             }
         });
@@ -542,6 +668,9 @@ where
     fn replay(&self, case: Value) -> Result<Check, String> {
         let case: C = serde_json::from_value(case).map_err(|e| format!("cannot decode case: {e}"))?;
         let mut probe = Probe::default();
+        if deadline_applies(self.name) {
+            return Ok(deadline_check(self.check, &case, &mut probe));
+        }
         Ok(guarded_check(|| (self.check)(&case, &mut probe)))
     }
 }
@@ -605,6 +734,47 @@ pub fn make_ctx(tier: Tier, seed: u64) -> Ctx {
 
 static START: OnceLock<Instant> = OnceLock::new();
 
+// ---------------------------------------------------------------------------
+// stall watchdog: a case that does not come back is not a verdict, but it must not take the
+// 40-minute outer timeout to say so. Every worker bumps a heartbeat per case; a watchdog thread
+// ends the process with status 2 (and says which sub-check, worker and case ordinal) when a busy
+// worker has shown no heartbeat for STALL_LIMIT seconds.
+
+pub const MAX_WORKERS: usize = 64;
+pub static HEARTBEAT: [std::sync::atomic::AtomicU64; MAX_WORKERS] = [const { std::sync::atomic::AtomicU64::new(0) }; MAX_WORKERS];
+pub static BUSY: [AtomicBool; MAX_WORKERS] = [const { AtomicBool::new(false) }; MAX_WORKERS];
+static CURRENT_SUB: Mutex<String> = Mutex::new(String::new());
+static WATCHDOG: OnceLock<()> = OnceLock::new();
+
+pub fn beat(worker: usize) {
+    HEARTBEAT[worker % MAX_WORKERS].fetch_add(1, Ordering::Relaxed);
+}
+
+fn start_watchdog(prop: &'static str, seed: u64, tier: Tier) {
+    WATCHDOG.get_or_init(|| {
+        // no single case of any check takes more than about a minute (quick) / five minutes (thorough)
+        let limit: u64 = std::env::var("VERIF_STALL_LIMIT").ok().and_then(|v| v.parse().ok()).unwrap_or(tier.pick(300, 1200));
+        std::thread::spawn(move || {
+            let mut last = [0u64; MAX_WORKERS];
+            let mut since = [Instant::now(); MAX_WORKERS];
+            loop {
+                std::thread::sleep(std::time::Duration::from_secs(2));
+                for w in 0..MAX_WORKERS {
+                    let hb = HEARTBEAT[w].load(Ordering::Relaxed);
+                    if !BUSY[w].load(Ordering::Relaxed) || hb != last[w] {
+                        last[w] = hb;
+                        since[w] = Instant::now();
+                    } else if since[w].elapsed().as_secs() >= limit {
+                        let sub = CURRENT_SUB.lock().map(|g| g.clone()).unwrap_or_default();
+                        eprintln!("vcheck: {prop}/{sub}: no verdict: worker {w} has been inside one case for more than {limit} s (case ordinal {hb} of that worker, VERIF_SEED {seed}): the code under test does not return for this input (a hang is reported as exit status 2, not as a violation)");
+                        std::process::exit(2);
+                    }
+                }
+            }
+        });
+    });
+}
+
 /// where evidence/ and replays/ are written: /verif, unless VERIF_OUT redirects a development run
 fn out_dir(ctx: &Ctx) -> PathBuf {
     match std::env::var("VERIF_OUT") {
@@ -622,7 +792,15 @@ pub fn run_property(ctx: &Ctx, prop: &Property, only_sub: Option<&str>) -> RunOu
                 continue;
             }
         }
+        if HUNG.load(Ordering::SeqCst) {
+            eprintln!("vcheck: {}/{}: skipped (a call of an earlier sub-check did not return; its abandoned thread is still running)", prop.id, sub.name());
+            continue;
+        }
         let t0 = Instant::now();
+        start_watchdog(prop.id, ctx.seed, ctx.tier);
+        if let Ok(mut g) = CURRENT_SUB.lock() {
+            *g = sub.name().to_string();
+        }
         let r = sub.run(ctx, prop.id);
         eprintln!(
             "vcheck: {}/{}: {} cases ({} inner), {} distinct non-trivial, {:.1}s{}",
